@@ -83,7 +83,7 @@ impl Property for C10 {
         "C10"
     }
     fn cases(&self, tier: Tier) -> u32 {
-        tier.pick(30_000, 300_000)
+        tier.pick(200_000, 2_000_000)
     }
     fn strategy(&self, tier: Tier) -> BoxedStrategy<Abs> {
         let big = tier.pick(60_000usize, 300_000);
@@ -215,6 +215,7 @@ impl Property for C10 {
         st.eval();
         let mut opts = Opts::with(USize::ReadFromHeader);
         opts.memlimit = Some(c.m);
+        let script: Vec<sut::Call> = c.pieces.iter().map(|p| sut::Call::Write(*p)).collect();
         let ((verdict, total, hash), mem) = alloc::measure(|| match c.mode {
             Mode::OneShotHeader => {
                 let r = sut::lzma_decompress(&file, &opts, &ReaderKind::Slice, &io);
@@ -225,8 +226,7 @@ impl Property for C10 {
                 (r.verdict, r.sink.total, r.sink.hash)
             }
             Mode::Stream => {
-                let script: Vec<sut::Call> = c.pieces.iter().map(|p| sut::Call::Write(*p)).collect();
-                let r = sut::stream_run(&file, &opts, &script, &sink, false);
+                let r = sut::stream_run_ext(&file, &opts, &script, &sink, false, false);
                 (r.verdict, r.sink.total, r.sink.hash)
             }
         });
